@@ -1,0 +1,59 @@
+//go:build verif
+
+package store
+
+import "crypto/sha256"
+
+// Add-only seams for the C04 verification harness (/verif). Compiled only with -tags verif.
+
+// VerifPauseIndexing pauses every indexer before its next indexSince call.
+func (s *ImmuStore) VerifPauseIndexing() {
+	s.indexersMux.RLock()
+	defer s.indexersMux.RUnlock()
+
+	for _, indexer := range s.indexers {
+		indexer.Pause()
+	}
+}
+
+// VerifResumeIndexing resumes every paused indexer.
+func (s *ImmuStore) VerifResumeIndexing() {
+	s.indexersMux.RLock()
+	defer s.indexersMux.RUnlock()
+
+	for _, indexer := range s.indexers {
+		indexer.Resume()
+	}
+}
+
+// VerifIndexTs returns the logical time of the index registered under the given target prefix.
+func (s *ImmuStore) VerifIndexTs(targetPrefix []byte) (uint64, error) {
+	s.indexersMux.RLock()
+	defer s.indexersMux.RUnlock()
+
+	indexer, ok := s.indexers[sha256.Sum256(targetPrefix)]
+	if !ok {
+		return 0, ErrIndexNotFound
+	}
+
+	return indexer.Ts(), nil
+}
+
+// VerifValueRefFrom exposes valueRefFrom (parser of the serialised indexed value).
+func (s *ImmuStore) VerifValueRefFrom(tx, hc uint64, indexedVal []byte) (ValueRef, error) {
+	return s.valueRefFrom(tx, hc, indexedVal)
+}
+
+// VerifSerializeIndexableEntry exposes serializeIndexableEntry.
+func VerifSerializeIndexableEntry(vLen int, vOff int64, hVal [sha256.Size]byte, txmd, kvmd []byte) []byte {
+	var b [lszSize + offsetSize + sha256.Size + sszSize + maxTxMetadataLen + sszSize + maxKVMetadataLen]byte
+
+	e := &TxEntry{vLen: vLen, vOff: vOff, hVal: hVal}
+
+	n := serializeIndexableEntry(b[:], txmd, e, kvmd)
+
+	out := make([]byte, n)
+	copy(out, b[:n])
+
+	return out
+}
